@@ -383,7 +383,57 @@ func c9sess(a []string) string {
 	return joinOr(outs, ",")
 }
 
+// C09.stress <n>   n goroutines call Execute for ONE session id at the same time, with no schedule control (the
+//   hook lets everybody through). The admitted session(s) stay alive until every other request has returned.
+//   => admitted=<k>,refused=<n-k>   (under -race this is also what exposes unsynchronised accesses)
+func c9stress(a []string) string {
+	c9installHook()
+	n := int(u64(a[0]))
+	w := newC9World()
+	ctx, cancel := context.WithCancel(context.Background())
+	defer cancel()
+	rets := make(chan error, n)
+	start := make(chan struct{})
+	for i := 0; i < n; i++ {
+		p := w.proc("a", "p")
+		go func() {
+			<-start
+			rets <- w.coord.Execute(ctx, []tss.TssProcess{p}, make(chan interface{}, 1))
+		}()
+	}
+	close(start)
+	refused, other := 0, 0
+	deadline := time.After(3 * time.Second)
+collect:
+	for refused+other < n-1 {
+		select {
+		case err := <-rets:
+			if isRefusal(err) {
+				refused++
+			} else {
+				other++
+			}
+		case <-deadline:
+			break collect
+		}
+	}
+	admitted := n - refused - other
+	cancel()
+	for i := 0; i < admitted; i++ {
+		select {
+		case <-rets:
+		case <-time.After(c9wait):
+			return "hang"
+		}
+	}
+	if other > 0 {
+		return "unexpected-return"
+	}
+	return "admitted=" + itoa(admitted) + ",refused=" + itoa(refused)
+}
+
 func init() {
+	ops["C09.stress"] = c9stress
 	ops["C09.race"] = c9race
 	ops["C09.sess"] = c9sess
 	gens["C09"] = genC09
@@ -462,6 +512,10 @@ func genC09(g *G) {
 			}
 		}
 		g.Emit("race", spec(sids), strings.Join(sch, ","))
+	}
+	// unscheduled bursts of 2..8 simultaneous requests for one id
+	for i := 0; i < g.Count(12, 400); i++ {
+		g.Emit("stress", itoa(2+g.Intn(7)))
 	}
 	// sessions: every outcome × role × 1..3 processes, each followed by a re-use of the same id
 	for _, np := range []string{"1", "2", "3"} {
